@@ -12,7 +12,7 @@ ASSUMPTIONS = ["numpy on one row is the reference, incl. numpy's identity for an
                "values only (the statement does not fix the result dtype); means within 2 ulp of the result dtype",
                "float values are dyadic, so sums and products are exact whatever the summation order; no NaN"]
 REQUIRED_FEATURES = ["empty_row_first", "empty_row_last", "consecutive_empty_rows", "all_rows_empty", "zero_rows",
-                     "keepdims", "axis_none", "ufunc_reduce", "undefined_reference", "arg_reduction", "float_inf_pattern"]
+                     "keepdims", "axis_none", "ufunc_reduce", "undefined_reference", "arg_reduction", "float_inf_pattern", "float_nan_pattern"]
 BOUNDS = {"quick": "LV(4,3) x 9 dtypes x 2 patterns x {sum,prod,any,all,max,min,mean,argmax,argmin} x {method axis=-1, np.f axis=-1, "
                    "axis=1, keepdims, axis=None} + ufunc.reduce for add, multiply, logical_and/or/xor, bitwise_and/or/xor, maximum, minimum",
           "thorough": "LV(5,3) u LV(3,5), 3 patterns"}
@@ -54,6 +54,12 @@ def cases(shard, tier):
                 for form in ("method", "keepdims", "none"):
                     yield [lens, dt, "inf", op, form]
             yield [lens, dt, "inf", "add", "reduce"]
+            # NaN: propagates through sum/prod/max/min/mean, counts as True, and is the arg-extreme where it occurs first
+            for op in ("sum", "prod", "max", "min", "mean", "any", "all", "argmax", "argmin"):
+                for form in ("method", "func", "none"):
+                    yield [lens, dt, "nan", op, form]
+            yield [lens, dt, "nan", "maximum", "reduce"]
+            yield [lens, dt, "nan", "minimum", "reduce"]
             # decimal fractions: only for reductions that SELECT an element / an index (their result is exact whatever the values)
             for op in ("max", "min", "argmax", "argmin"):
                 for form in ("method", "func"):
@@ -94,6 +100,9 @@ def check(case, acc):
     elif k == "inf":
         acc.feature("float_inf_pattern")
         flat = np.array(([1.5, float("inf"), 0.25, -2.0, 4.0, float("-inf"), 0.5, 3.0] * (size // 8 + 1))[:size], dtype=dt)
+    elif k == "nan":
+        acc.feature("float_nan_pattern")
+        flat = np.array(([1.5, float("nan"), 0.25, -2.0, 4.0, 0.5, float("nan"), 3.0] * (size // 8 + 1))[:size], dtype=dt)
     else:
         flat = dsl.pattern(dt, size, k)
     if op == "mean" and dt in ("int64", "uint64"):
